@@ -273,7 +273,7 @@ theorem selected_exact (o : Opts) (found : Bool) (lex : List Char → List Line)
   generalize srcLines (expandTabs o.tabSize (shownCode o code)) = L at *
   have htake_no : ∀ l ∈ L.take m, '\n' ∉ l := fun l hl => hno l (List.mem_of_mem_take hl)
   unfold selectedLines
-  simp only [hhl, hg, textSplitC_eq _ _ hnc]
+  simp only [hhl, linesOfText, hg, textSplitC_eq _ _ hnc]
   cases hr : o.lineRange with
   | none =>
     have hsplit : textSplit (removeSuffixNL text) false = popBlank (L.take m) := by
